@@ -64,7 +64,8 @@ CONSTANTS
     Datagrams,            \* subset of BOOLEAN: UDP (resend arm) / stream
     UNBUFFERED_HANDOFF, RANDOM_SELECT, DOUBLE_COUNT, DEV,
     MaxStray, MaxDup, MaxCancel, MaxFault,
-    WithHist
+    WithHist,
+    GenFocus              \* "none" | "late_fault" (generator only)
 
 VARIABLES
     maxCq, dgram,         \* configuration
@@ -156,7 +157,7 @@ EarlyClosed(c) ==
     /\ pc[c] = "started" /\ closed
     /\ pc' = [pc EXCEPT ![c] = "done"] /\ res' = [res EXCEPT ![c] = Err("closed")]
     /\ reserved' = IF "leak_on_err" \in DEV THEN reserved ELSE reserved - 1
-    /\ H([a |-> "EarlyClosed", c |-> c])
+    /\ UNCHANGED hist
     /\ UNCHANGED <<cfgv, queue, nextQid, closed, netClosed, qid, gen, ctxDone, slot, envv, rd, histv>>
 
 \* smallest k such that nextQid+k is free (addQueueC skips busy ids)
@@ -177,7 +178,7 @@ AddQueue(c) ==
         /\ wire' = IF "no_wrap_guard" \in DEV THEN wire ELSE {s \in wire : s.wid # w \/ IsCurrent(s)}
     /\ reserved' = IF DOUBLE_COUNT THEN reserved ELSE reserved - 1
     /\ pc' = [pc EXCEPT ![c] = "registered"]
-    /\ H([a |-> "AddQueue", c |-> c])
+    /\ UNCHANGED hist
     /\ UNCHANGED <<cfgv, closed, netClosed, gen, res, ctxDone, slot, net, nstray, ndup, ncancel, nfault, rd, histv>>
 
 Write(c) ==
@@ -198,7 +199,7 @@ FailTo(c, e) ==
 WriteDead(c) ==
     /\ pc[c] = "registered" /\ netClosed
     /\ FailTo(c, "write") /\ closed' = TRUE
-    /\ H([a |-> "WriteDead", c |-> c]) /\ LocalClose
+    /\ UNCHANGED hist /\ LocalClose
     /\ UNCHANGED <<cfgv, queue, nextQid, reserved, netClosed, qid, gen, ctxDone, slot, envv, rd, resent, spurious>>
 
 \* the pending Write fails (fault, or the connection was closed meanwhile); the server never saw the bytes
@@ -224,7 +225,7 @@ TakeReply(c) ==
     /\ pc[c] = "waiting" /\ slot[c].k = "reply"
     /\ pc' = [pc EXCEPT ![c] = "unreg"] /\ res' = [res EXCEPT ![c] = slot[c]]
     /\ slot' = [slot EXCEPT ![c] = None]
-    /\ H([a |-> "TakeReply", c |-> c])
+    /\ UNCHANGED hist
     /\ UNCHANGED <<cfgv, connv, qid, gen, ctxDone, envv, rd, histv>>
 
 \* design: an already delivered reply is preferred over the close notification
@@ -232,20 +233,20 @@ SeeClose(c) ==
     /\ pc[c] = "waiting" /\ closed
     /\ RANDOM_SELECT \/ slot[c].k = "none"
     /\ FailTo(c, "closed")
-    /\ H([a |-> "SeeClose", c |-> c])
+    /\ UNCHANGED hist
     /\ UNCHANGED <<cfgv, connv, qid, gen, ctxDone, slot, envv, rd, histv>>
 
 SeeCtx(c) ==
     /\ pc[c] = "waiting" /\ ctxDone[c]
     /\ FailTo(c, "ctx")
-    /\ H([a |-> "SeeCtx", c |-> c])
+    /\ UNCHANGED hist
     /\ UNCHANGED <<cfgv, connv, qid, gen, ctxDone, slot, envv, rd, histv>>
 
 \* UDP: the 1 s ticker fired, the same query is written again (same wire id)
 Resend(c) ==
     /\ pc[c] = "waiting" /\ dgram /\ ~netClosed
     /\ resent' = [resent EXCEPT ![c] = TRUE]
-    /\ H([a |-> "Resend", c |-> c])
+    /\ UNCHANGED hist
     /\ UNCHANGED <<cfgv, connv, callv, envv, rd, arrived, spurious>>
 
 DelQueue(c) ==
@@ -254,7 +255,7 @@ DelQueue(c) ==
     /\ slot' = [slot EXCEPT ![c] = None]
     /\ reserved' = IF DOUBLE_COUNT THEN reserved - 1 ELSE reserved
     /\ pc' = [pc EXCEPT ![c] = "done"]
-    /\ H([a |-> "DelQueue", c |-> c])
+    /\ UNCHANGED hist
     /\ UNCHANGED <<cfgv, nextQid, closed, netClosed, qid, gen, res, ctxDone, envv, rd, histv>>
 
 Return(c) ==
@@ -323,13 +324,13 @@ ReaderClose ==
 ReaderDies ==
     /\ rd.k \in {"arm", "read"} /\ netClosed
     /\ rd' = Rd("dead")
-    /\ H([a |-> "ReaderDies"])
+    /\ UNCHANGED hist
     /\ UNCHANGED <<cfgv, connv, callv, envv, histv>>
 
 \* c.Close() inside CloseWithErr (after closeNotify was closed)
 ConnClose ==
     /\ closed /\ ~netClosed /\ netClosed' = TRUE
-    /\ H([a |-> "ConnClose"])
+    /\ UNCHANGED hist
     /\ UNCHANGED <<cfgv, queue, nextQid, reserved, closed, callv, envv, rd, histv>>
 
 \* Close() called from outside
@@ -350,7 +351,7 @@ ServerReply(s) ==
     /\ ndup' = IF s.nr = 0 THEN ndup ELSE ndup + 1
     /\ net' = net \cup {Reply(s.wid, s.c, s.g, s.nr)}
     /\ wire' = Bump(s)
-    /\ H([a |-> "ServerReply", c |-> s.c, g |-> s.g, n |-> s.nr])
+    /\ UNCHANGED hist
     /\ UNCHANGED <<cfgv, connv, callv, nstray, ncancel, nfault, rd, histv>>
 
 \* a reply whose id matches no outstanding query
@@ -358,7 +359,7 @@ ServerStray ==
     /\ nstray < MaxStray /\ ~netClosed
     /\ net' = net \cup {Reply(StrayWid, NoC, 0, nstray)}
     /\ nstray' = nstray + 1
-    /\ H([a |-> "ServerStray"])
+    /\ UNCHANGED hist
     /\ UNCHANGED <<cfgv, connv, callv, wire, ndup, ncancel, nfault, rd, histv>>
 
 Cancel(c) ==
@@ -426,13 +427,26 @@ TypeOK ==
     /\ rd.k \in {"arm", "read", "reply", "failed", "dead"}
     /\ netClosed => closed
 
-ASSUME \A q \in MaxCqs : q < M
+ASSUME \A q \in MaxCqs : q <= M
 
 ------------------------------------------------------------------------------
 \* behaviour export (leg B): the schedule of every complete run
 Terminal == \A c \in Callers : pc[c] = "idle" /\ gen[c] = MaxCalls
 Emit == Terminal => PrintT(<<"BEH", ToJson([maxCq |-> maxCq, dgram |-> dgram, qid0 |-> 0, steps |-> hist])>>)
-GenNext == ~Terminal /\ Next
+\* generator focus "late_fault": connection faults only directly after a reply was consumed in time
+\* (C02: "EOF / read error directly after the reply"), so that random walks do not end by an early close
+FaultOK == GenFocus # "late_fault" \/ \E c \in Callers : arrived[c].k = "reply"
+GenNext ==
+    /\ ~Terminal
+    /\ \/ \E c \in Callers :
+             \/ \E o \in {"ok", "full", "closed"} : Reserve(c, o)
+             \/ Withdraw(c) \/ Start(c) \/ CallerStep(c) \/ Cancel(c)
+             \/ (FaultOK /\ WriteFail(c))
+       \/ ReaderStep
+       \/ (FaultOK /\ (ReadFail \/ ExtClose))
+       \/ \E r \in net : ReadMsg(r)
+       \/ \E s \in wire : ServerReply(s)
+       \/ ServerStray
 GenSpec == Init /\ [][GenNext]_vars
 
 ViewNoHist == <<cfgv, connv, callv, envv, rd, histv>>
